@@ -185,29 +185,33 @@ def unlink (a b : Nat) (g : G) : GOut (List Nat) :=
       | .exc g' => .exc g'
       | .ok _ g3 => .ok [e] { g3 with pending := g3.pending ++ [.edges [e]] }
 
+/-- the node table written by the exchange of `switchNodes` (GlobalGraph.cpp:176-185) for the
+relation father -> son carried by edge e -/
+def switchedNodes (f s e : Nat) (nodes : List (Nat × Row)) : List (Nat × Row) :=
+  let n1 := AL.modify f (fun r => { r with out := AL.erase s r.out }) nodes
+  let n2 := AL.modify s (fun r => { r with inn := AL.erase f r.inn }) n1
+  let n3 := AL.modify s (fun r => { r with out := AL.set f e r.out }) n2
+  AL.modify f (fun r => { r with inn := AL.set s e r.inn }) n3
+
+/-- second half of `switchNodes` (GlobalGraph.cpp:166-189), once the forward relation
+father -> son (edge e) has been found -/
+def switchFrom (f s e : Nat) (g : G) : GOut Unit :=
+  if (g.inE s f).isNone then .exc g
+  else if f ≠ s && (g.outE s f).isSome then .exc g
+  else .ok () { g with nodes := switchedNodes f s e g.nodes, edges := AL.set e (s, f) g.edges }
+
 /-- `switchNodes` (GlobalGraph.cpp:129) -/
 def switchNodes (a b : Nat) (g : G) : GOut Unit :=
   if !g.directed then .exc g
   else if !g.hasNode a || !g.hasNode b then .exc g
   else
     -- Forwards: A->B, otherwise B->A
-    let fs : Option (Nat × Nat × Nat) :=
-      match g.outE a b with
-      | some e => some (a, b, e)
-      | none => match g.outE b a with
-        | some e => some (b, a, e)
-        | none => none
-    match fs with
-    | none => .exc g
-    | some (father, son, e) =>
-      if (g.inE son father).isNone then .exc g
-      else if father ≠ son && (g.outE son father).isSome then .exc g
-      else
-        let n1 := AL.modify father (fun r => { r with out := AL.erase son r.out }) g.nodes
-        let n2 := AL.modify son (fun r => { r with inn := AL.erase father r.inn }) n1
-        let n3 := AL.modify son (fun r => { r with out := AL.set father e r.out }) n2
-        let n4 := AL.modify father (fun r => { r with inn := AL.set son e r.inn }) n3
-        .ok () { g with nodes := n4, edges := AL.set e (son, father) g.edges }
+    match g.outE a b with
+    | some e => switchFrom a b e g
+    | none =>
+      match g.outE b a with
+      | some e => switchFrom b a e g
+      | none => .exc g
 
 /-- `createNodeFromNode` (GlobalGraph.cpp:257) -/
 def createNodeFromNode (origin : Nat) (g : G) : GOut Nat :=
